@@ -1,25 +1,25 @@
 #!/usr/bin/env python3
 """Regenerates seeded/README.md from seeded/round{1,2,3}_table.json."""
 import json
-R=[json.load(open('/verif/seeded/round%d_table.json'%i)) for i in (1,2,3)]
+R=[json.load(open('/verif/seeded/round%d_table.json'%i)) for i in (1,2,3,4)]
 def found(e): return 'DETECTED' in e['as_found'].split(':',1)[1][:14]
 def row(e,d):
     st=e.get('strengthening','none needed')
     now='DETECTED' if 'not reported' not in e['now'] else e['now'].replace('quick: ','')
     return '| %s | `%s/` | %s | %s | %s | %s |'%(e['property'], d, e['change'].split(':')[0], 'DETECTED' if found(e) else 'missed', now, '—' if st=='none needed' else st.replace('||','‖'))
 L=['# Seeded property-breaking changes\n']
-L.append('Three rounds, 22 changes each (one per property and round), written by **fresh sub-agents that were given only the text of one property and their own scratch git worktree of /repo** (nothing from /verif). Each was asked for one small, realistic change that compiles, passes the existing tests and needs something specific to manifest, together with a demonstration that fails with the change and passes without it. Round 2 agents were also told where the round-1 change of their property was located and asked for a different function and mechanism; round 3 agents were told both earlier locations and asked to avoid swallowed store errors (well represented by then).\n')
-L.append('Every change kept here was **confirmed by me in its scratch worktree** with `tools/seed_confirm.sh`: `go build ./...`, the pinned 221-test baseline suite with the change applied (221/221), the demonstration failing with the change and passing with `patch.diff` reverted. All 66 were confirmed (one round-3 agent first re-invented an earlier change and was asked for another). Each was then **evaluated** with `tools/seed_eval.sh`: `git -C /repo apply patch.diff`, `./check <id> quick` (evidence and replays redirected to /tmp; run from a git-worktree snapshot of /verif so that my own edits could not interfere), `git -C /repo checkout -- .`. No change was ever committed to /repo. The scratch worktrees were removed afterwards.\n')
-L.append('Per directory (`<id>/` round 1, `<id>.2/`, `<id>.3/`): `patch.diff`, `demo/` (the agent\'s demonstration + command), `NOTES.md` (the agent\'s explanation), `meta.json` (property, what it needs to manifest, what I ran to confirm it, the verdict of the checks as they were when the change arrived and as they are now, violation signatures, what was strengthened).\n')
+L.append('Four rounds (22 + 22 + 22 + 16 = 82 changes, one per property and round; round 4 covered C04..C19), written by **fresh sub-agents that were given only the text of one property and their own scratch git worktree of /repo** (nothing from /verif). Each was asked for one small, realistic change that compiles, passes the existing tests and needs something specific to manifest, together with a demonstration that fails with the change and passes without it. Round 2 agents were also told where the round-1 change of their property was located and asked for a different function and mechanism; round 3 agents were told both earlier locations and asked to avoid swallowed store errors (well represented by then); round 4 agents were told all three, asked to avoid the hand-shake races as well and to prefer interleavings of separate actors, crash + retry, re-used identifiers and stale state.\n')
+L.append('Every change kept here was **confirmed by me in its scratch worktree** with `tools/seed_confirm.sh`: `go build ./...`, the pinned 221-test baseline suite with the change applied (221/221), the demonstration failing with the change and passing with `patch.diff` reverted. All 82 were confirmed (one round-3 agent first re-invented an earlier change and was asked for another). Each was then **evaluated** with `tools/seed_eval.sh`: `git -C /repo apply patch.diff`, `./check <id> quick` (evidence and replays redirected to /tmp; run from a git-worktree snapshot of /verif so that my own edits could not interfere), `git -C /repo checkout -- .`. No change was ever committed to /repo. The scratch worktrees were removed afterwards.\n')
+L.append('Per directory (`<id>/` round 1, `<id>.2/`, `<id>.3/`, `<id>.4/`): `patch.diff`, `demo/` (the agent\'s demonstration + command), `NOTES.md` (the agent\'s explanation), `meta.json` (property, what it needs to manifest, what I ran to confirm it, the verdict of the checks as they were when the change arrived and as they are now, violation signatures, what was strengthened).\n')
 L.append('## Result\n')
 L.append('| round | reported by the quick tier as it was when the round started | reported now |\n|---|---|---|')
-names=['1','2 (different function and mechanism than round 1; faults and interleavings preferred)','3 (different from both; no swallowed store errors)']
+names=['1','2 (different function and mechanism than round 1; faults and interleavings preferred)','3 (different from both; no swallowed store errors)','4 (16 properties; different from all three; no hand-shake races)']
 for i,r in enumerate(R):
-    L.append('| %s | %d / 22 | %s |'%(names[i], sum(found(e) for e in r), '22 / 22' if i<2 else '22 / 22 (C15.3 by the check of C11, see below)'))
+    n=len(r); L.append('| %s | %d / %d | %s |'%(names[i], sum(found(e) for e in r), n, ['22 / 22','22 / 22','22 / 22 (C15.3 by the check of C11, see below)','16 / 16 (C08.4 by the check of C09: the same change as C09.4)'][i]))
 L.append('\nA miss was never answered by special-casing the change: each strengthening adds a dimension to the enumerated space, a scenario, or a general oracle (last column). Several of them found further genuine defects in the unchanged tree (listing fault sweep: 2; rename / delete / squash fault sweeps: 3; a path sorting before `.datamon`: 1; link counts: 1 - all repaired, DESIGN.md §5.2).\n')
 L.append('Six changes (C04.2, C05.2, C15.2, C04.3, C11.3, C15.3) are races between goroutines of one process (a semaphore slot released before the result is sent, a `select` between "result" and "done"). The explorer does not enumerate that level (DESIGN.md §4). It drives the process into the racy state by parking the busy party inside a store call, after which the runtime picks; all six were reported in the final evaluation, C15.3 by C11\'s check (its own property\'s check reported it in the as-found run and not in the final one). That is sampling, not enumeration, and is not claimed as exhaustive.\n')
 for i,r in enumerate(R):
-    suf=['','.2','.3'][i]
+    suf=['','.2','.3','.4'][i]
     L.append('\n## Round %d\n\n| property | directory | where | quick tier as found | now | strengthening |\n|---|---|---|---|---|---|'%(i+1))
     for e in r: L.append(row(e,e['property']+suf))
 L.append('\n## Reverting the repairs\n\n`revert_matrix.txt` (from `tools/revert_matrix.sh`, run when 41 repairs existed): for each `fix:` commit of /repo the reverse patch is applied to the working tree, the quick check of its property is run and /repo is restored. All 39 reverts that still applied were reported (two reverse patches no longer apply on top of later fixes of the same lines). Two of them (`ae55e75`, `0e33f65`) were first reached only by the thorough tier; the fail-slow fault kind and guided deepening brought them into the quick tier. The seven later repairs were each found by the quick tier itself.\n')
